@@ -254,9 +254,10 @@ def cross_check(ck, name, cons, verdict, tier):
 
 
 def sn_flags(ck, tier):
-    from gsv import grouping_checks as GC, xh
-    n = 3 if tier == "quick" else 4
-    res = GC.run_conditions(ck, "C20", n, ["check_sn_raises"], 150 if tier == "quick" else 900, (), ["check_sn_twin"])
+    from gsv import grouping_checks as GC, groupsym, xh
+    groupsym.run_all(ck, 3 if tier == "quick" else 4, which=("sn",))
+    n = 3
+    res = GC.run_conditions(ck, "C20", n, ["check_sn_raises"], 150, (), ["check_sn_twin"])
     verdict, cex, secs, tail = res["check_sn_raises"]
     ck.obligations += 1
     ck.nontrivial.add(("sn_raises", n))
